@@ -559,6 +559,8 @@ class ServeMpsMedia(MediaRequestBase):
             origin_time += seg_time
 
         if seg_num is not None:
+            if seg_num < representation.start_number:
+                raise ValueError('Segment before start of media')
             mod_seg += seg_num - representation.start_number
             if mod_seg > representation.num_media_segments:
                 logging.warning(
